@@ -4,8 +4,15 @@
    file_image = what Save writes (version word ++ WriteFavrec), load = fav.Load on a file content,
    renumber = what ReadFavrec does to line ids, folder ids, LineID, FolderID and FavNum.
    wf_fav (Proofs/C19_rt.v): every field within its Go type (int8/int16/int32), titles 49 bytes, and on every
-   level 0 <= NBoards, NLines, NFolders and NBoards+NLines+NFolders = number of entries < 2^15. *)
-From Verif Require Import Base.Common Base.Fs Model.C19 Proofs.C19.
+   level 0 <= NBoards, NLines, NFolders and NBoards+NLines+NFolders = number of entries < 2^15.
+   Consistent trees (Proofs/C19_api.v): level_ok h its = on one level NBoards/NLines/NFolders are the numbers of boards,
+   lines and folders of its, LineID = NLines, FolderID = NFolders, the k-th line has Lid k, the k-th folder Fid k, fewer
+   than 128 lines, 128 folders, 2^15 entries. sok_item z = payloads within their Go types and level_ok in every nested
+   folder (z = true: and the FavNum cache of every nested folder is 0, which is what the API leaves there - only
+   ReadFavrec fills it). lvl z f = level_ok at the root and sok_item z on every entry; sok_fav z f = lvl z f and fewer
+   than 2^15 entries in the whole tree (total_items). fill_cache f = f with FavNum of the root and of every nested
+   folder set to the number of entries below it; zero_item = an entry with the FavNum of every nested folder reset to 0. *)
+From Verif Require Import Base.Common Base.Fs Gen.Consts_default Model.C19 Proofs.C19.
 
 (* for EVERY well-formed tree (any nesting depth, any number of entries within the counter ranges): the save does not
    crash and loading the written file returns the tree with ids and derived counters renumbered ... *)
@@ -20,10 +27,44 @@ Theorem C19_roundtrip_same_entries : forall f : fav, shape (renumber f) = shape 
 Proof. exact renumber_shape. Qed.
 Print Assumptions C19_roundtrip_same_entries.
 
-(* NOT proved here, validated by the check on every run (predicate "api-ids" and the correspondence of the Add* model):
-   trees built by NewFavRaw/AddBoard/AddLine/AddFolder are well-formed and renumber leaves their ids, LineID, FolderID
-   and the root FavNum unchanged (sub-folder FavNum is a cache that only the reader fills):
-     forall script, run_script script empty_fav 0 = Some (t, n) -> wf_fav t /\ strip_sub_favnum (renumber t) = strip_sub_favnum t. *)
+(* EVERY tree reachable from NewFavRaw by a script of API calls - AddBoard / AddLine / AddFolder on the folder at any
+   path (any depth), assignments to Attr / LastVisit / board Attr, in any order and number, the calls refused at the
+   limits (ErrTooManyLines at 64 lines, ErrTooManyFolders at 64 folders of a level, ErrTooManyFavs at 1024 entries,
+   ErrInvalidBid) included; run_script is the function the harness runs against ptt/fav - is well-formed, has
+   consistent counters and sequential ids on every level, Root.FavNum = number of entries <= MAX_FAV, and the reader's
+   renumbering changes nothing in it except that it fills the FavNum cache of the nested folders:
+   fst (renumber t) = fst t (all six root counters) and resetting those caches gives back exactly the entries of t. *)
+Theorem C19_api_trees_wellformed : forall (ops : list (list Z)) (t : fav) (n : Z),
+  run_script ops empty_fav 0 = Some (t, n) ->
+  wf_fav t /\ sok_fav true t /\ h_favnum (fst t) = total_items (snd t) /\ total_items (snd t) <= ptt_fav.MAX_FAV /\
+  renumber t = fill_cache t /\ fst (fill_cache t) = fst t /\ map zero_item (snd (fill_cache t)) = snd t.
+Proof. exact api_trees_wellformed. Qed.
+Print Assumptions C19_api_trees_wellformed.
+
+(* hence: writing such a tree and loading the file SUCCEEDS and returns the same entries in the same order with the same
+   payloads, Lid/Fid, and the same NBoards/NLines/NFolders/LineID/FolderID on every level and the same Root.FavNum
+   (t' equals t once the nested FavNum caches, 0 in t, are reset); and t' written and loaded again is t' exactly.
+   (The literal "renumber t = t" is false for an API-built tree with a non-empty nested folder, because of that cache:
+   C19_api_subfolder_cache_differs below.) *)
+Theorem C19_api_roundtrip_identity : forall (ops : list (list Z)) (t : fav) (n : Z),
+  run_script ops empty_fav 0 = Some (t, n) ->
+  exists img t', file_image t = Ok img /\ load img = ROk t' /\
+    fst t' = fst t /\ map zero_item (snd t') = snd t /\
+    exists img', file_image t' = Ok img' /\ load img' = ROk t'.
+Proof. exact api_roundtrip_identity. Qed.
+Print Assumptions C19_api_roundtrip_identity.
+
+Theorem C19_api_subfolder_cache_differs : exists ops t n,
+  run_script ops empty_fav 0 = Some (t, n) /\ renumber t <> t /\ renumber (renumber t) = renumber t.
+Proof. exact api_renumber_not_identity. Qed.
+Print Assumptions C19_api_subfolder_cache_differs.
+
+(* the same for every tree with consistent counters, however it was made (e.g. one that has been loaded): the round
+   trip only fills the FavNum caches, and a tree whose caches are filled is an exact fixed point of save/load *)
+Theorem C19_consistent_roundtrip : forall (z : bool) (f : fav), sok_fav z f ->
+  wf_fav f /\ renumber f = fill_cache f /\ wf_fav (fill_cache f) /\ renumber (fill_cache f) = fill_cache f.
+Proof. exact consistent_roundtrip. Qed.
+Print Assumptions C19_consistent_roundtrip.
 
 (* the bytes follow the pttbbs .fav format: version word, counts (int16, int8, int8), the entries of the level
    (type, attr, then 12-byte board = 9 packed + 3 zero | 1-byte line | fid + 49-byte title), then each folder's
@@ -53,8 +94,74 @@ Theorem C19_crash_atomic : forall (f : fav) (cs : list chunk) (old : fs) (n : na
 Proof. exact crash_atomic. Qed.
 Print Assumptions C19_crash_atomic.
 
-(* NOT proved (kept as the full statement; validated by the check through trees with FAVH_FAV dropped on random
-   entries, predicate "roundtrip" = the returned tree is exactly the valid entries in order with counters = counts):
-   C19_cleanup : forall f f', cleanup f = Ok f' ->
-     entries f' = the entries of f whose attr has FAVH_FAV, recursively, in the same order /\
-     on every level NBoards/NLines/NFolders = number of boards/lines/folders, LineID = NLines, FolderID = NFolders. *)
+(* cleanup (rebuildFav when some entry lost FAVH_FAV) on EVERY tree with consistent counters - in particular every tree
+   the API scripts above produce, where Attr assignments drop FAVH_FAV anywhere: it does not panic, and in the result
+   - the entries are exactly the entries of f that have FAVH_FAV, recursively (an invalid folder goes with everything
+     below it), in the same order, with the same payloads (skel_items f = the valid entries of f with ids and counters
+     forgotten; skel_item = the same of one entry) and no invalid entry is left (need_rebuild = false);
+   - on every level NBoards/NLines/NFolders = the numbers of boards/lines/folders, LineID = NLines, FolderID = NFolders,
+     line and folder ids count 1, 2, ... in order (lvl z f'), so the result is well-formed (wf_fav f');
+   - FavNum is not touched (the code does not recompute it; the reload after the save does). *)
+Theorem C19_cleanup : forall (z : bool) (f : fav), lvl z f ->
+  exists f', cleanup f = Ok f' /\
+    map skel_item (snd f') = skel_items (snd f) /\ need_rebuild f' = false /\
+    lvl z f' /\ wf_fav f' /\ h_favnum (fst f') = h_favnum (fst f).
+Proof. exact cleanup_spec. Qed.
+Print Assumptions C19_cleanup.
+
+(* the hypothesis is needed: on a level whose real number of lines does not fit NLines (int8) the rebuild panics
+   (200 valid lines: slice bounds out of range) or silently drops every entry (256 valid lines). Such levels cannot be
+   built through the API (C19_api_trees_wellformed) but can be read from a crafted .fav. *)
+Theorem C19_cleanup_needs_consistent_counters :
+  rebuild (Hdr 200 0 0 0 0 0, ILine 0 0 :: repeat (ILine 1 0) 200) = Crash /\
+  exists f', rebuild (Hdr 256 0 0 0 0 0, ILine 0 0 :: repeat (ILine 1 0) 256) = Ok f' /\ snd f' = [].
+Proof. exact rebuild_needs_bounds. Qed.
+Print Assumptions C19_cleanup_needs_consistent_counters.
+
+(* The whole Save of Model/C19.v (cleanup -> mtime decision -> temporary file -> rename -> reload), for EVERY tree f with
+   consistent counters in memory, over an existing .fav that is the image of some well-formed tree fo, for every
+   outcome rel of the mtime comparison. save_syscalls rel old f (Proofs/C19_save.v) is the list of system calls that
+   save hands to the file-system model: Create tmp, one Write per chunk of the cleaned tree, Rename tmp .fav when the
+   gate lets it write (no .fav yet, or rel > 0), and no call at all otherwise.
+   - cleanup succeeds (f1), and for EVERY number n of system calls executed before the process dies, Load of what is
+     then in .fav SUCCEEDS and returns either the old tree (renumber fo: fo as a reader sees it) or the new tree
+     (renumber f1) - never an error, never a mixture; the new one only if the gate let the save write;
+   - a save that runs to its end returns the reloaded new tree / the cleaned tree in memory (equal mtime) / the tree
+     reloaded from the untouched file (older), and what it reports as the content of .fav is what the complete
+     system-call list leaves.
+   Assumption as for C19_crash_atomic (Base/Fs.v): system calls are atomic w.r.t. the process dying, rename replaces
+   the target in one step, written data survives the death of the process. *)
+Theorem C19_save_sequence : forall (z : bool) (f : fav) (rel : Z) (fo : fav) (c : list Z),
+  lvl z f -> wf_fav fo -> file_image fo = Ok c ->
+  exists f1, cleanup f = Ok f1 /\ wf_fav f1 /\
+    (forall n, let disk := exec [(FN_FAV, c)] (firstn n (save_syscalls rel (Some c) f)) in
+       (lookup FN_FAV disk = Some c /\ load c = ROk (renumber fo)) \/
+       (0 < rel /\ lookup FN_FAV disk = Some (spec_file f1) /\ load (spec_file f1) = ROk (renumber f1))) /\
+    save rel (Some c) f = (if 0 <? rel then SOk (Some (spec_file f1)) (renumber f1)
+                           else if rel =? 0 then SOk (Some c) f1 else SOk (Some c) (renumber fo)) /\
+    image_of (save rel (Some c) f) = lookup FN_FAV (exec [(FN_FAV, c)] (save_syscalls rel (Some c) f)).
+Proof. exact save_sequence. Qed.
+Print Assumptions C19_save_sequence.
+
+(* the first save (no .fav yet): after any prefix there is still no .fav, or the complete new image that loads *)
+Theorem C19_save_sequence_fresh : forall (z : bool) (f : fav) (rel : Z), lvl z f ->
+  exists f1, cleanup f = Ok f1 /\ wf_fav f1 /\
+    (forall n, let disk := exec [] (firstn n (save_syscalls rel None f)) in
+       lookup FN_FAV disk = None \/
+       (lookup FN_FAV disk = Some (spec_file f1) /\ load (spec_file f1) = ROk (renumber f1))) /\
+    save rel None f = SOk (Some (spec_file f1)) (renumber f1) /\
+    image_of (save rel None f) = lookup FN_FAV (exec [] (save_syscalls rel None f)).
+Proof. exact save_sequence_fresh. Qed.
+Print Assumptions C19_save_sequence_fresh.
+
+(* exactly what the harness runs against ptt/fav (run_case op 1: a script of API calls, then Save into an empty home):
+   Save returns the cleaned tree t1 with the FavNum caches filled, t1 = the valid entries of t in order with counters =
+   counts on every level; and when no entry lost FAVH_FAV the returned tree is t itself up to the nested FavNum caches *)
+Theorem C19_api_save_load : forall (ops : list (list Z)) (t : fav) (n : Z),
+  run_script ops empty_fav 0 = Some (t, n) ->
+  exists t1, cleanup t = Ok t1 /\
+    save 1 None t = SOk (Some (spec_file t1)) (fill_cache t1) /\
+    map skel_item (snd t1) = skel_items (snd t) /\ lvl true t1 /\
+    (need_rebuild t = false -> t1 = t /\ fst (fill_cache t) = fst t /\ map zero_item (snd (fill_cache t)) = snd t).
+Proof. exact api_save_load. Qed.
+Print Assumptions C19_api_save_load.
